@@ -338,8 +338,10 @@ def all_elements_processed(chk, W, A, elem_pat, lab, rule):
     vector is consumed by iterator combinators instead of a loop the obligation is skipped (no_truncation covers adaptors)."""
     import accum
     fb, d = _fixture("loop_early_break.json")
-    chk.expect(bool(accum.early_exits(fb, d["next_bb"])), rule, "positive-control(early-exit)", "the rule fires on the stored fixture (hop loop with a break)",
-               "the early-exit rule no longer fires on its fixture", "fixtures/loop_early_break.json")
+    if not getattr(chk, "_pc_early", False):
+        chk._pc_early = True
+        chk.expect(bool(accum.early_exits(fb, d["next_bb"])), "LOOP-all-elements", "positive-control(early-exit)", "the rule fires on the stored fixture (hop loop with a break)",
+                   "the early-exit rule no longer fires on its fixture", "fixtures/loop_early_break.json")
     sites = {}
     for e in A.calls(r"Iterator>?::next$"):
         el = all_origins(vfield(A.d(e.extra["dargs"][0]), "[*]")) if e.extra.get("dargs") else set()
